@@ -838,6 +838,15 @@ func otherPanicsRule(r *Run, rule string, m *lexerModel) {
 						return true
 					}
 					con := "index " + short(w.Fset, x)
+					// an array of at least 256 elements indexed by a byte
+					if at, isArr := tv.Type.Underlying().(*types.Array); isArr && at.Len() >= 256 {
+						if it, ok := info.Types[x.Index]; ok {
+							if bt, isB := it.Type.Underlying().(*types.Basic); isB && (bt.Kind() == types.Uint8 || bt.Kind() == types.Byte) {
+								r.Ok(rule, f.Name(), con, w.Pos(x.Pos()), "a byte indexes an array of 256 elements or more")
+								return true
+							}
+						}
+					}
 					if why := indexDischarged(w, info, f, x, m); why != "" {
 						r.Ok(rule, f.Name(), con, w.Pos(x.Pos()), why)
 					} else if why := ledgerDischarges(w, f, x.Lbrack, x.Pos(), x.End()); why != "" {
